@@ -34,7 +34,9 @@ func hostileHistory(stream []byte, post bool, then string) []Action {
 	case "more":
 		h = append(h, Action{Kind: "hostile", Client: "X", Raw: []byte{0xc0, 0x00, 0xff, 0xff}, RawDesc: "PINGREQ + garbage"})
 	}
-	h = append(h, pub("WP", "wit/ness", 1, 12, "after-1"), pub("WP", "wit/ness", 0, 0, "after-2"), Action{Kind: "ping", Client: "WP"}, Action{Kind: "ping", Client: "WS"})
+	h = append(h, pub("WP", "wit/ness", 1, 12, "after-1"), pub("WP", "wit/ness", 0, 0, "after-2"), Action{Kind: "ping", Client: "WP"}, Action{Kind: "ping", Client: "WS"},
+		// the witnesses can still change their subscriptions (writers on the shared topic tree)
+		sub("WS", 3, "wit/2", 0), pub("WP", "wit/2", 0, 0, "after-3"), unsub("WS", 4, "wit/2"), pub("WP", "wit/2", 0, 0, "after-4"))
 	return h
 }
 
@@ -70,6 +72,15 @@ func C05(c *core.Ctx) {
 	for _, n := range []int{8191, 8192, 8193, 16383, 16384, 16385, 1 << 21, 1<<28 - 1} {
 		hdr := append([]byte{0x30}, refcodec.VarLen(n)...)
 		streams = append(streams, append(hdr, 0x00, 0x01, 'w', 'x', 'y'))
+	}
+	// well-formed publishes the broker cannot route (topics starting with '$'): the error
+	// paths of the fan-out, with and without a QoS handshake
+	for _, q := range []byte{0, 1, 2} {
+		st := refcodec.Encode(&refcodec.Packet{Type: refcodec.PUBLISH, Topic: []byte("$SYS/x"), QoS: q, ID: 21, Payload: []byte("d"), Retain: q == 1})
+		if q == 2 {
+			st = append(st, refcodec.Encode(&refcodec.Packet{Type: refcodec.PUBREL, ID: 21})...)
+		}
+		streams = append(streams, st)
 	}
 	// every cut point of a valid exchange
 	var exch []byte
